@@ -385,24 +385,107 @@ Theorem yearless_store_hit_oracle_free : forall (D1 D2 : list N -> option Z) bs 
 Proof. exact CachesYearParam.find_sysline_hit_oracle_free. Qed.
 Print Assumptions yearless_store_hit_oracle_free.
 
+(* (b) THE REVERSE PASS IS THE WALK of Model/Year.v.  gwalk = Year.redate / Year.walk with the instant function, the
+   tolerance and the early stop as parameters (CachesYearWalk.walk_gwalk: Year.walk = gwalk (with_year off) TOL no-stop);
+   inst dated_y f y b = the oracle of year y on the line that begins at b; begins = the offsets at which the messages
+   begin (they do not depend on the year).  If the walk over the messages from the last one upwards, fm attempts per
+   message, yields l, then the loop of process_missing_year (any tolerance, early stop at --dt-after included) with fuel
+   fm * |messages| + 1 ends with Found (the year of the topmost message walked) in the invariant of that year, and
+   `syslines` holds at the begin of every message walked a message with the instant the walk gave it
+   (stored bs st b (y, t): syslines[b] = s with begin b and instant t).  Every call of the pass is a miss of
+   check_store (all that is stored lies at or below the message just accepted), so each message is built with the
+   current year; a jump removes it and empties both LRU caches. *)
+From S4.Model Require Year.
+From S4.Proofs Require Import CachesYearWalk.
+
+Theorem yearless_walk_is_gwalk : forall dated_y bs (f : file) tol fa fm st Y l fuel, 0 < bs ->
+  (forall y y' l, dated_y (Some y) l = None <-> dated_y (Some y') l = None) ->
+  lr_inv bs f (s_lr st) ->
+  let begins := map fst (syslines_at (dated_y (Some Y)) f) in
+  gwalk (inst dated_y f) tol (dt_before fa) fm Y None (rev begins) = Some l ->
+  (fm * length begins + 1 <= fuel)%nat ->
+  let res := c_year_loop dated_y fuel bs f tol fa (c_clear_syslines st) Y (lenN f - 1) None in
+  snd res = Found (fin Y l) /\ YI dated_y bs f (fin Y l) (fst res) /\
+  Forall2 (stored bs (fst res)) (firstn (length l) (rev begins)) l.
+Proof. exact CachesYearWalk.yearless_walk_gwalk. Qed.
+Print Assumptions yearless_walk_is_gwalk.
+
+(* ... with calendar years: when the oracle of year y on the i-th message is Year.with_year off y m_i (month, day, time of
+   day of the message, zone off), the tolerance is 25 h and there is no --dt-after, the loop computes C11's assign_years:
+   it ends with the year of the first message and `syslines` holds every message with the instant assign_years gives it.
+   This ties the code-level loop to the model of C11 for every file, block size and reader state. *)
+Theorem yearless_walk_is_assign_years : forall dated_y bs (f : file) off msgs fm st Y ys fuel, 0 < bs ->
+  (forall y y' l, dated_y (Some y) l = None <-> dated_y (Some y') l = None) ->
+  lr_inv bs f (s_lr st) ->
+  let begins := map fst (syslines_at (dated_y (Some Y)) f) in
+  Forall2 (fun b m => forall y, inst dated_y f y b = Year.with_year off y m) begins msgs ->
+  Year.assign_years fm off Y msgs = Some ys ->
+  (fm * length msgs + 1 <= fuel)%nat ->
+  let res := c_year_loop dated_y fuel bs f Year.TOL None (c_clear_syslines st) Y (lenN f - 1) None in
+  snd res = Found (match ys with [] => Y | (y, _) :: _ => y end) /\
+  YI dated_y bs f (match ys with [] => Y | (y, _) :: _ => y end) (fst res) /\
+  Forall2 (stored bs (fst res)) begins ys.
+Proof. exact CachesYearWalk.yearless_walk_assign_years. Qed.
+Print Assumptions yearless_walk_is_assign_years.
+
+(* the DRIVER up to stage 3: stages 1 (end) and 2 of c_stream_year - disable_drop_data on a streamed file, clear_syslines,
+   the reverse pass with the driver's own fuel 2 |f| + 1 and C11's two attempts per message - hand stage 3 a reader in
+   the invariant of the first message's year that holds every message with the instant assign_years gives it; stage 3
+   is the window driver with the filler-year oracle on that reader *)
+Theorem yearless_driver_stage2 : forall dated_y bs (f : file) off msgs Y ys fb plan st, 0 < bs ->
+  (forall y y' l, dated_y (Some y) l = None <-> dated_y (Some y') l = None) ->
+  let stream := b_stream (l_blk (s_lr st)) in
+  let st1 := if stream then sr_set_lr (lr_set_blk (b_disable_drop (l_blk (s_lr st))) (s_lr st)) st else st in
+  lr_inv bs f (s_lr st1) -> 0 < lenN f ->
+  let begins := map fst (syslines_at (dated_y (Some Y)) f) in
+  Forall2 (fun b m => forall y, inst dated_y f y b = Year.with_year off y m) begins msgs ->
+  Year.assign_years 2 off Y msgs = Some ys ->
+  exists st', c_stream_year dated_y bs f Year.TOL Y None fb plan st =
+                c_stream_win (dated_y None) bs f None fb (if stream then [] else plan) st' /\
+              YI dated_y bs f (match ys with [] => Y | (y, _) :: _ => y end) st' /\
+              Forall2 (stored bs st') begins ys.
+Proof. exact CachesYearWalk.yearless_stage2. Qed.
+Print Assumptions yearless_driver_stage2.
+
 (* NOT PROVED (full statement): yearless_driver_complete - for every bs > 0, file, year-less oracle dated_y (domain
    hypothesis above), mtime year Y, container and drop plan:
-     obs (c_stream_year dated_y bs f TOL Y None None plan (gate state)) = the spec groups of f, the i-th dated
-     D y_i (its head line), where (y_i, t_i) = Model/Year.v walk / assign_years (fuel 2, C11) on the messages; no Panic.
-   CLOSED: (a) the invariant up to the instant and across year changes (theorems above) and the safety of the whole pass.
-   MISSING, exactly:
-   (b) c_year_loop = Year.walk: the induction from the last group upwards showing that the call at (begin of the group
-       below) - 1 is answered with the group above (spec_at_group; groups are contiguous), that the jump test is Year.redate's
-       test on the instants phi y b (available: yearless_find_sysline_year gives the built message the instant phi y b),
-       the three stop tests, the fuel bound (two attempts per message: C11_assign_fuel), and the resulting store:
-       every group at b holds the instant phi y_b b (frame: find_sysline_frame; remove_sysline takes out only b);
-   (c) stage 3 from the store: every find_sysline of c_stream_win at a group begin is a check_store hit (all groups are
-       stored after the pass; drop_data_try on a plain file removes only messages behind), hence oracle-free
-       (yearless_store_hit_oracle_free) and emits the stored instants; its structure follows from cached_driver_complete
-       on the state re-dated with any one year (yearless_parametric).
-   The composed program (WP-H) would use yearless_driver_complete in the form of streamed_driver_struct; until (b), (c)
-   close it keeps the pure reader for year-less files; what it can use today: yearless_reverse_pass_safe (no Panic, final
-   invariant) and yearless_find_sysline_year. *)
+     obs (c_stream_year dated_y bs f TOL Y None None plan (gate state)) = the spec groups of f, the i-th with the instant
+     t_i where (y_i, t_i) = Model/Year.v assign_years 2 (C11) on the messages; no Panic.
+   CLOSED: (a) the invariant up to the instant and across year changes, the safety of the whole pass; (b) the loop is the
+   walk (yearless_walk_is_gwalk, yearless_walk_is_assign_years); stages 1-2 of the driver (yearless_driver_stage2); a
+   store hit is oracle-free (yearless_store_hit_oracle_free).
+   MISSING, exactly - (c) stage 3 on the reader of yearless_driver_stage2:
+     - the first call is find_sysline(0): when undated lines lead the file it is a SEARCH with the filler-year oracle that
+       builds the first message again; its instant is the pass's only through the parse_datetime LRU cache (one leading
+       byte: the find_sysline LRU cache) - the statement needs `s_on st = true` or a file that begins with a message
+       (yearless_driver_caches_off_refuted, confirmed on the binary built with LRU_CACHE_ENABLE = false);
+     - every later find_sysline of c_stream_win (at each fo_next) is at the begin of a message, all of which are stored: check_store hits (LRU, range or syslines branch), hence oracle-free, and answers with the STORED
+       message - for the LRU branch this needs one more invariant through the pass: every LRU entry holds a message that
+       is stored in `syslines` (true: the cache is emptied at every removal; not carried by year_loop_walk yet);
+     - drop_data_try on a plain file (any plan) removes only messages behind the current one (c_drop_data_try keeps
+       rinv: CachesRunProofs), so the messages ahead stay stored;
+     - the emitted list is then the stored messages in file order = the spec groups (structure: YI) with the instants of
+       `stored`; with --dt-before it is cut at the first message after the bound.
+   With a --dt-after bound the pass stops early (covered by yearless_walk_is_gwalk) and stage 3 meets messages the pass
+   did not store: they are searched with the filler year; no statement is claimed for that case.
+   The composed program (WP-H) would use yearless_driver_complete in the form of streamed_driver_struct; until (c) closes it
+   keeps the pure reader for year-less files; what it can use today: yearless_driver_stage2 (c_stream_year = stage 3 on a
+   reader holding assign_years' instants), yearless_reverse_pass_safe (no Panic) and yearless_find_sysline_year. *)
+(* REFUTED for a reader whose LRU caches are off (latent; the s4 binary runs with them on): stage 3 begins with
+   find_sysline(0); when undated lines lead the file the first message is built again with the filler year and keeps the
+   instant of the reverse pass only through the parse_datetime / find_sysline LRU caches.  Witness "\n2z\n2b\n", toy
+   oracle dy2 (a line that begins with '2' is dated; instant = 1000 * year + second byte; filler year 0), tolerance 10,
+   mtime year 7: the walk dates the first message 6122; the driver emits 6122 with the caches on, 122 with them off *)
+Theorem yearless_driver_caches_off_refuted :
+  gwalk (inst dy2 fyu) 10 (dt_before None) 2 7 None (rev (map fst (syslines_at (dy2 (Some 7%Z)) fyu))) =
+    Some [(7%Z, 7098%Z); (6%Z, 6122%Z)] /\
+  option_map (map ss_dt) (match snd (c_stream_year dy2 2 fyu 10 7 None None [] (sr_init_b (b_init false)))
+                          with Found l => Some l | _ => None end) = Some [6122%Z; 7098%Z] /\
+  option_map (map ss_dt) (match snd (c_stream_year dy2 2 fyu 10 7 None None [] (sr_lru_disable (sr_init_b (b_init false))))
+                          with Found l => Some l | _ => None end) = Some [122%Z; 7098%Z].
+Proof. exact CachesYearWalk.yearless_caches_off_witness. Qed.
+Print Assumptions yearless_driver_caches_off_refuted.
+
 Theorem yearless_driver_partial : forall dated_y bs (f : file) tol fa fuel st Y fo, 0 < bs ->
   (forall y y' l, dated_y (Some y) l = None <-> dated_y (Some y') l = None) ->
   lr_inv bs f (s_lr st) ->
